@@ -248,7 +248,7 @@ def run(ctx: Ctx) -> None:
     units = []
     for name, sql in TREES:
         small = name in ("add", "func", "bool", "in")
-        max_len = (3 if small else 2) if quick else (4 if name in ("add", "func", "bool") else 3)
+        max_len = (3 if small else 2) if quick else (4 if name == "add" else 3)
         ws = [sqlglot.parse_one(sql), None]
         for op in treeops.enabled_ops(ws, quick, rules):
             units.append(("bfs", name, sql, op, max_len))
@@ -285,7 +285,7 @@ def run(ctx: Ctx) -> None:
                     "8 small parsed trees; replay from scratch; state key = exact fingerprint + set of paths with a "
                     "cached hash. non-trivial = histories with a cache-populating op (hash/==) before a mutation.",
             "history_len": {"quick": "3 on 4 expression trees, 2 on 4 query trees",
-                            "thorough": "4 on 3 smallest, 3 on the rest"}["quick" if quick else "thorough"],
+                            "thorough": "4 on the smallest tree, 3 on the rest"}["quick" if quick else "thorough"],
             "ops_raising_library_errors": res["errors"],
             "eq_class_checks": res["eqpairs"],
             "stream_trees_checked": res["stream_trees"],
